@@ -4,7 +4,7 @@ import ls_position_sites as sites_tr
 
 META = {
     "category": "proof",
-    "text": "PROVED (Coq, all texts and all (line, character)): offset safety of the common prologue of every position-taking LSP handler — LuaDocument::get_offset (C22 model, after its fix) never panics and returns nothing (missing line) or an in-document character-boundary offset, so rowan's token_at_offset range assertion and string slicing cannot fail; with the `offset > root end` guard this holds for ANY extent of the syntax tree, without it only for a lossless tree (refutation witness: the NUL document); to_rowan_range yields an ordered in-document range or nothing. A translator regenerates on every run the table of all sites under emmylua_ls/src/handlers that consume a client position or look a token up by offset, and the theorem all_sites_safe is re-checked against today's table (any site that does not go through get_offset / to_rowan_range, or an unguarded lookup, breaks it). EXPLORATION (not proof): what the handler bodies do after the prologue — searched on the real in-process server: every position/range-taking request x documents (valid/invalid, CRLF, emoji, empty, unterminated) x positions (token boundaries, inside surrogate pairs, past line ends, lines/characters up to u32::MAX, reversed ranges) must get a response and the server must keep answering.",
+    "text": "PROVED (Coq, all texts and all (line, character)): offset safety of the common prologue of every position-taking LSP handler — LuaDocument::get_offset (C22 model, after its fix) never panics and returns nothing (missing line) or an in-document character-boundary offset, so rowan's token_at_offset range assertion and string slicing cannot fail; with the `offset > root end` guard this holds for ANY extent of the syntax tree, without it only for a lossless tree (refutation witness: the NUL document); to_rowan_range yields an ordered in-document range or nothing. A translator regenerates on every run the table of all sites under emmylua_ls/src/handlers that consume a client position or look a token up by offset, and the theorem all_sites_safe is re-checked against today's table (any site that does not go through get_offset / to_rowan_range, or an unguarded lookup, breaks it). The same translator lists every TextRange::new(start, end) built inside the handlers (also in range-taking and uri-only requests: semantic tokens, colors, completion edits, format diff) with the reason its order holds — end = start + size, both ends of one range, an explicit order guard (proved safe for all values: classified_range_site_never_crashes, all_range_sites_safe) or a hand review pinned to a hash of the enclosing function; a site it cannot classify, or a reviewed function that changed, is UnknownOrder and fails the obligation. EXPLORATION (not proof): what the handler bodies do after the prologue — searched on the real in-process server: every position/range-taking request x documents (valid/invalid, CRLF, emoji, empty, unterminated) x positions (token boundaries, inside surrogate pairs, past line ends, lines/characters up to u32::MAX, reversed ranges) must get a response and the server must keep answering.",
     "note": "Trusted: Coq kernel; the C22 hand model of LineIndex (tied by C22's correspondence); the text-based translator checks/ls_position_sites.py (reviewed allow-list for tree-internal offsets; fails loudly on unknown shapes); rowan's documented assertion in token_at_offset; handler bodies beyond the prologue are covered by search only. Axioms: none.",
     "technique": "Coq proof on the C22 line-index model + regenerated site table with a decidable obligation + dynamic tie through selectionRange answers of the real server + request fuzzing of the real in-process server (panic hook + response accounting)",
 }
@@ -12,6 +12,8 @@ META = {
 THEOREMS = [("offset_always_valid", "theorem"), ("guarded_entry_never_crashes", "theorem"),
             ("unguarded_entry_safe_on_lossless_tree", "theorem"), ("unguarded_lossy_refuted", "refutation"),
             ("range_entry_never_crashes", "theorem"), ("all_sites_ok", "table"), ("all_sites_safe", "theorem"),
+            ("classified_range_site_never_crashes", "theorem"), ("unknown_range_site_refuted", "refutation"),
+            ("all_range_sites_ok", "table"), ("all_range_sites_safe", "theorem"),
             ("entry_example", "example")]
 
 TRUSTED = [
@@ -20,7 +22,8 @@ TRUSTED = [
     "C22's hand-written model of LineIndex / LuaDocument (coq/theories/C22/Model.v), tied to the code by C22's exact correspondence check",
     "translator checks/ls_position_sites.py: regex/brace-matching extraction of get_offset / to_rowan_range / token_at_offset sites and of the "
     "`if offset > …end() { return }` guard from crates/emmylua_ls/src/handlers (test code excluded); reviewed allow-list of 4 tree-internal sites "
-    "and 1 guarded resolve-data site; reviewed classification of request types (position / range / none)",
+    "and 1 guarded resolve-data site; reviewed classification of request types (position / range / none); for TextRange::new sites: 6 hand-reviewed "
+    "order invariants (REVIEWED_RANGES) pinned to function hashes in checks/ls_position_sites.reviewed.json — those are trusted, not proved",
     "rowan 0.16.1 SyntaxNode::token_at_offset asserts range.start <= offset <= range.end (read from the crate source); TextRange::new asserts start <= end",
     "search harness harness/vh_ls/src/bin/c25.rs: a handler panic is detected by the process-wide panic hook plus the missing response",
 ]
@@ -44,6 +47,13 @@ def translate(ck):
         ck.tie_broken("position handler table: %d site(s) do not obtain their offset through get_offset/to_rowan_range or look a token up "
                       "without the root-end guard: %s" % (len(bad), "; ".join("%s::%s (%s)" % (s[0], s[1], s[5]) for s in bad[:6])),
                       json.dumps(bad, indent=1))
+    rsites = getattr(sites_tr.generate, "range_sites", [])
+    ck.cov["table_obligations"].append({"table": "Gen/C25_Handlers.v range_sites (TextRange::new)", "rows": len(rsites),
+                                        "by_kind": {k: sum(1 for r in rsites if r[2] == k) for k in sorted(set(r[2] for r in rsites))}})
+    badr = [r for r in rsites if r[2] == "UnknownOrder"]
+    if badr:
+        ck.tie_broken("TextRange::new sites whose start <= end order is neither evident, guarded nor reviewed: %s" %
+                      "; ".join("%s::%s (%s)" % (r[0], r[1], r[3]) for r in badr[:5]), json.dumps(badr, indent=1))
     if unknown_types:
         ck.tie_broken("request types in dispatch_request! that are not classified as position/range/none: %s" % ", ".join(unknown_types),
                       "add them to REQUEST_KIND in checks/ls_position_sites.py after reading their params type")
